@@ -623,6 +623,69 @@ fn is_symmetric_exact(a: &[f64], n: usize) -> bool {
     (0..n).all(|i| (i + 1..n).all(|j| a[i * n + j] == a[j * n + i]))
 }
 
+/// Symmetric small-integer matrix with a positive diagonal, nonsingular (exact Bareiss determinant),
+/// at least one of whose proper leading principal minors is EXACTLY zero: a Cholesky attempt meets an
+/// exact zero pivot (and then 0/0 or x/0 below it), so the routing "try Cholesky, fall back to LU" is
+/// exercised at the boundary between "pivot not positive" and "pivot negative". B = A·X* exactly.
+fn gen_sym_zero_minor(rng: &mut Rng, n: usize, k: usize) -> Option<Sys> {
+    for _ in 0..200 {
+        let wide = rng.chance(0.3);
+        let mut ai = vec![0i64; n * n];
+        for i in 0..n {
+            for j in i..n {
+                let v = if i == j { rng.int(1, if wide { 4 } else { 2 }) as i64 } else if wide { rng.int(-2, 2) as i64 } else { rng.int(-1, 1) as i64 };
+                ai[i * n + j] = v;
+                ai[j * n + i] = v;
+            }
+        }
+        if rng.chance(0.6) {
+            // force the zero at a random position m: rows m, m+1 get proportional leading parts and a
+            // 2x2 diagonal block c^2, ±c·d, d^2 — exact only when the leading m x m block is zero below,
+            // so this is done at m = 0 and the general positions are left to the rejection step
+            let c = rng.int(1, 2) as i64;
+            let d = rng.int(1, 2) as i64;
+            let sg = if rng.chance(0.5) { 1 } else { -1 };
+            ai[0] = c * c;
+            ai[1] = sg * c * d;
+            ai[n] = sg * c * d;
+            ai[n + 1] = d * d;
+            if rng.chance(0.6) {
+                // row 2 proportional in its first two entries: 0/0 below the zero pivot
+                let t = rng.int(-1, 1) as i64;
+                ai[2 * n] = t * c;
+                ai[2] = t * c;
+                ai[2 * n + 1] = sg * t * d;
+                ai[n + 2] = sg * t * d;
+            }
+        }
+        let mut zero_minor = false;
+        for m in 1..n {
+            let lead: Vec<i64> = (0..m).flat_map(|i| (0..m).map(move |j| (i, j))).map(|(i, j)| ai[i * n + j]).collect();
+            if exact::bareiss_det(&lead, m) == Some(0) {
+                zero_minor = true;
+                break;
+            }
+        }
+        if !zero_minor || matches!(exact::bareiss_det(&ai, n), Some(0) | None) {
+            continue;
+        }
+        let a: Vec<f64> = ai.iter().map(|&v| v as f64).collect();
+        let xs = rng.ints(n * k, -9, 9);
+        let mut bb = vec![0.0; n * k];
+        for i in 0..n {
+            for j in 0..k {
+                let mut s: i64 = 0;
+                for t in 0..n {
+                    s += ai[i * n + t] * xs[t * k + j] as i64;
+                }
+                bb[i * k + j] = s as f64;
+            }
+        }
+        return Some(Sys { regime: "sym-posdiag-zero-leading-minor", n, k, a, b: bb, xstar: Some(xs), how: "symmetric integer matrix (entries -2..2, diagonal 1..4), det != 0 exactly, some proper leading principal minor exactly 0; B = A·X* with integer X* (exact)".to_string() });
+    }
+    None
+}
+
 fn generate2(rng: &mut Rng, class: &'static str, n: usize) -> Option<(Sys, f64)> {
     let k = rng.usize(1, 6);
     for _attempt in 0..50 {
@@ -1582,6 +1645,21 @@ pub fn run(cfg: &Cfg, rep: &mut Report) {
             None => rep.seen(&format!("generator-gave-up:{}", class), 1),
         }
     });
+    // fifth stream: symmetric, positive diagonal, nonsingular, an exactly zero leading principal minor
+    rep.assume("sym-posdiag-zero-leading-minor: symmetric integer matrices of order 3..10 (entries -2..2, diagonal 1..4), nonsingular by an exact Bareiss determinant, with a proper leading principal minor that is exactly zero (a Cholesky attempt meets an exact zero pivot, followed by 0/0 or x/0); cond_inf <= 1e10; B = A·X* exact");
+    let ncases5 = if cfg.miri() { 3 } else { cfg.pick(640, 12800, 8) };
+    par_cases(cfg, rep, 5, ncases5, |i, rng: &mut Rng, rep| {
+        let n = if cfg.miri() { 3 + i } else { 3 + i % 8 };
+        let k = rng.usize(1, 6);
+        match gen_sym_zero_minor(rng, n, k) {
+            Some(s) => match cond_ok(&s.a, n, 1e10) {
+                Some(kappa) => one_system(rep, &s, kappa),
+                None => rep.seen("generator-gave-up:sym-posdiag-zero-leading-minor", 1),
+            },
+            None => rep.seen("generator-gave-up:sym-posdiag-zero-leading-minor", 1),
+        }
+    });
+    rep.require("sym-posdiag-zero-leading-minor", 1);
     // third family: small orders, ill-conditioned by cancellation, consistent right-hand sides
     let small: Vec<(usize, usize)> = (0..SMALL_KINDS.len()).flat_map(|kd| (1..=SMALL_NMAX).map(move |n| (kd, n))).filter(|&(kd, n)| n >= 2 || kd <= 1).collect();
     let small_m: Vec<(usize, usize)> = vec![(0, 2), (2, 3), (4, 2)];
